@@ -17,12 +17,18 @@ def float_clamp(res, facts, ty, lo, hi):
     path = '<%s as core::convert::From<f32>>::from' % ty
     where = where_of(facts, path)
     name = ty.split('::')[-1]
-    parts = [('below', (-INF, lo), 'lo'), ('inside', (lo, hi), 'id'), ('above', (hi, INF), 'hi'), ('nan', None, 'bound')]
+    from ..terms import PINF_ATOM, NINF_ATOM
+    FMAX = Fr(2 ** 128 - 2 ** 104)   # f32::MAX
+    parts = [('-inf', 'ninf', 'lo'), ('below', (-FMAX, lo), 'lo'), ('inside', (lo, hi), 'id'), ('above', (hi, FMAX), 'hi'), ('+inf', 'pinf', 'hi'), ('nan', None, 'bound')]
     for pname, rng, exp in parts:
         it = Interp(facts)
         st = State()
         if rng is None:
             x = Num(NAN, 'f32')
+        elif rng == 'pinf':
+            x = Num(Poly.atom(PINF_ATOM), 'f32')
+        elif rng == 'ninf':
+            x = Num(Poly.atom(NINF_ATOM), 'f32')
         else:
             x = float_sym(st, 'x', *rng)
             if pname == 'below':
